@@ -152,6 +152,60 @@ def _const_bounds(b, tr, t):
     return None
 
 
+def _small_consts(f, b, tr, op, depth=0):
+    """The set of integer constants an operand can hold when every definition that reaches it is a constant (literal or named
+    constant); None otherwise."""
+    if depth > 3:
+        return None
+    if op.get('k') == 'const':
+        v = const_value(op)
+        if isinstance(v, int) and not isinstance(v, bool):
+            return {v}
+        if 'uneval' in op:
+            from ..sym import SymEx
+            from ..facts import Body
+            raw = {'path': 'pk::const_eval', 'blocks': [{'stmts': [{'s': 'assign', 'place': {'l': 0, 'p': [], 'ty': op.get('ty', '?')},
+                   'rv': {'r': 'use', 'a': op}, 'span': {'file': '', 'line': 0, 'col': 0}}], 'term': {'t': 'return'}, 'cleanup': False}],
+                   'locals': [{'ty': op.get('ty', '?')}], 'arg_count': 0, 'span': {'file': '', 'line': 0, 'col': 0}}
+            try:
+                sx = SymEx(f)
+                outs = sx.run(Body(raw, 'lib'), [])
+                r = sx.deep(outs[0].st, outs[0].ret) if len(outs) == 1 else None
+                if isinstance(r, tuple) and r[0] == 'num' and r[1].denominator == 1:
+                    return {int(r[1])}
+            except Exception:      # noqa: BLE001
+                return None
+        return None
+    if 'l' not in op:
+        return None
+    o = tr.origin(op)
+    if o['o'] == 'const' and not o.get('p'):
+        return _small_consts(f, b, tr, o['c'], depth + 1)
+    if o['o'] == 'local' and not o.get('p'):
+        out = set()
+        ds = tr.defs.of(o['l'])
+        if not ds:
+            return None
+        for d in ds:
+            if d[2] != 'assign' or d[3]['r'] != 'use':
+                return None
+            sub = _small_consts(f, b, tr, d[3]['a'], depth + 1)
+            if sub is None:
+                return None
+            out |= sub
+        return out
+    return None
+
+
+def _index_plus_one(f, b, tr, t):
+    from .C20 import _from_enumerate
+    a, c = t['ops']
+    co = tr.origin(c)
+    if not (co['o'] == 'const' and const_value(co['c']) == 1):
+        return False
+    return _from_enumerate(b, tr, a, f)
+
+
 def _sub_under_guard(b, cfg, tr, bi, t):
     """`x - K` (unsigned) where the dominating guards give x >= K: e.g. `c as u8 - b'0'` inside the arm for '0'..='9'."""
     a, c = t['ops']
@@ -259,6 +313,9 @@ def run(ctx):
                     rep.ok('R1', 'const-index-in-bounds:%s' % b.fn_name, where(b, bi), _const_bounds(b, tr, t))
                 elif kind == 'Overflow' and t.get('binop') == 'Sub' and _sub_under_guard(b, cfg, tr, bi, t):
                     rep.ok('R1', 'subtraction-cannot-underflow:%s' % b.fn_name, where(b, bi), _sub_under_guard(b, cfg, tr, bi, t))
+                elif kind == 'Overflow' and t.get('binop') == 'Add' and _index_plus_one(f, b, tr, t):
+                    rep.ok('R1', 'enumerate-index-plus-one:%s' % b.fn_name, where(b, bi),
+                           'index + 1 for the index of an enumerate() over a collection: at most its length <= isize::MAX')
                 else:
                     rep.fail('R1', '%s/assert:%s' % (b.fn_name, kind), where(b, bi),
                              'a %s check can panic on some input string' % kind)
@@ -291,7 +348,8 @@ def run(ctx):
     rep.floor('R1', 'panic-capable sites enumerated in the parser', n_sites, 0 if has_ctor else 3)
     has_ctor = any((callee_name(t2) or '').endswith('::new') and len(t2['args']) == 9 and 'Matrix' in t2['dest'].get('ty', '')
                    for _, t2 in fo.calls())
-    rep.floor('R2', 'matrix index writes in the parser', len(index_sites), 0 if has_ctor else 3)
+    # (3 on the pinned tree: x, y, constant; a merged `'x' | 'y'` arm writes both coefficient columns at one site)
+    rep.floor('R2', 'matrix index writes in the parser', len(index_sites), 0 if has_ctor else 1)
     for (b, cfg, tr, bi, t) in index_sites:
         idx = tr.origin(t['args'][1])
         ok = False
@@ -300,6 +358,11 @@ def run(ctx):
             row, col = idx['rv']['ops']
             cv = const_value(col) if col.get('k') == 'const' else None
             col_ok = isinstance(cv, int) and 0 <= cv < 3
+            if not col_ok:
+                # a column chosen among constants (`if c == 'x' { X_COLUMN } else { Y_COLUMN }`, a named constant)
+                cvs = _small_consts(f, b, tr, col)
+                if cvs and all(0 <= v < 3 for v in cvs):
+                    col_ok, cv = True, '/'.join(str(v) for v in sorted(cvs))
             ro = tr.origin(row)
             rv = const_value(ro['c']) if ro['o'] == 'const' else None
             if isinstance(rv, int):
@@ -518,6 +581,20 @@ def transition_lemmas(ctx, fo):
                 if not (isinstance(o.ret, tuple) and o.ret[0] == 'stopped' and o.ret[1] == hdr):
                     continue
                 codes = None
+                # a path that took the arm for one character and then the branch `c == <another>` (or the false branch of
+                # `c == <the same>`) is not a path of any string (a merged arm `'x' | 'y' => if c == 'x' ..`)
+                sw_ = [c[2] for c in o.pc if c[0] == 'switch' and c[1] == SYM('c')]
+                infeasible = False
+                for c in o.pc:
+                    if sw_ and c[0] == 'cond' and isinstance(c[1], tuple) and c[1][0] == 'cmp' and c[1][1] in ('Eq', 'Ne'):
+                        a_, b_ = c[1][2], c[1][3]
+                        v_ = int(b_[1]) if a_ == SYM('c') and is_num_(b_) else int(a_[1]) if b_ == SYM('c') and is_num_(a_) else None
+                        if v_ is not None:
+                            truth = (sw_[-1] == v_) if c[1][1] == 'Eq' else (sw_[-1] != v_)
+                            if truth != c[2]:
+                                infeasible = True
+                if infeasible:
+                    continue
                 for c in o.pc:
                     if c[0] == 'switch' and c[1] == SYM('c'):
                         codes = c[2]
